@@ -126,20 +126,22 @@ class Tracer:
         self.open_fails = open_fails
         self.only = only  # restrict tracing to this path (others pass through untraced)
         self._installed = False
+        self._real_open = None
 
     def log(self, ev):
         self.events.append(ev)
 
     def open(self, path, mode="r", *a, **k):
-        if self.only is not None and os.path.abspath(str(path)) != os.path.abspath(self.only):
-            return builtins.open(path, mode, *a, **k)
+        real = self._real_open or builtins.open
+        if isinstance(path, int) or (self.only is not None and os.path.abspath(os.fspath(path)) != os.path.abspath(self.only)):
+            return real(path, mode, *a, **k)
         writing = any(c in mode for c in "wax+")
         existed = os.path.exists(path)
         if writing and self.open_fails:
             self.log({"ev": "open_fail", "mode": "w", "existed": existed})
             raise PermissionError(13, "injected open failure", str(path))
         try:
-            fh = builtins.open(path, mode, *a, **k)
+            fh = real(path, mode, *a, **k)
         except OSError:
             self.log({"ev": "open_fail", "mode": "w" if writing else "r", "existed": existed})
             raise
@@ -149,19 +151,21 @@ class Tracer:
         return proxy
 
     def install(self):
-        import iodata.api
-        import iodata.utils
-        iodata.api.open = self.open
-        iodata.utils.open = self.open
+        # the one place every way of opening a file goes through (the `open` of any module, `io.open`, `Path.open`): where in the
+        # library a file is opened, and with which spelling, is not the checks' business.  Only the path under observation is traced.
+        import io as _io
+        self._real_open = builtins.open
+        builtins.open = self.open
+        _io.open = self.open
         self._installed = True
         return self
 
     def uninstall(self):
-        import iodata.api
-        import iodata.utils
-        for mod in (iodata.api, iodata.utils):
-            if "open" in mod.__dict__:
-                del mod.__dict__["open"]
+        import io as _io
+        if self._real_open is not None:
+            builtins.open = self._real_open
+            _io.open = self._real_open
+            self._real_open = None
         self._installed = False
 
     def __enter__(self):
